@@ -364,6 +364,19 @@ def _bv_dops(L: str) -> str:
                            coeffs(["1.5", "0.25"], ["2"]), label="lin", d=desc("linear scale")))),
         dct_std("A_UINT32", 16), "A_FLOAT64", ptype_body="<PRECISION>2</PRECISION>",
         body_extra=f'<UNIT-REF ID-REF="{L}.UNIT.km"/>')
+    # coefficients that need many significant digits (nothing may be lost when they are written)
+    x += dop(
+        f"{L}.DOP.linear_precise", "linear_precise",
+        compu("LINEAR",
+              scales(scale(lim("LOWER-LIMIT", "0", "CLOSED"), lim("UPPER-LIMIT", "60000", "CLOSED"),
+                           coeffs(["-1234567.125", "0.0009765625"], ["3"]), label="precise"))),
+        dct_std("A_UINT32", 16), "A_FLOAT64")
+    x += dop(
+        f"{L}.DOP.linear_bigint", "linear_bigint",
+        compu("LINEAR",
+              scales(scale(lim("LOWER-LIMIT", "0", "CLOSED"), lim("UPPER-LIMIT", "200", "CLOSED"),
+                           coeffs(["123456789", "7"], ["1"]), label="bigint"))),
+        dct_std("A_UINT32", 8), "A_INT32")
     x += dop(
         f"{L}.DOP.scalelinear", "scalelinear",
         compu("SCALE-LINEAR",
